@@ -678,7 +678,12 @@ class Interp:
             loc = self.resolve(state, frame, r["p"])
             if loc is None or loc[0] == "anyjob":
                 return TOP
-            # a reference to a value-as-reference local is the value itself
+            # a shared borrow of a string is carried as the string itself (nothing can change it while the borrow lives); this keeps
+            # `Some(&recorded)` and `Some(&current)` joinable
+            if k == "ref" and r.get("mut") is False and loc[0][0] != "local":
+                cur = av_get(self.load_root(state, loc[0]), loc[1], self.uni)
+                if cur is not None and cur[0] == "str":
+                    return cur
             return ref(loc[0], loc[1])
         if k == "cast":
             v = self.eval_operand(state, frame, r["o"])
